@@ -285,7 +285,11 @@ psRes_t psX509ParseCertData(psPool_t *pool,
                 certData->len,
                 &current,
                 flags);
-        if (err < 0 && !(flags & CERT_ALLOW_BUNDLE_PARTIAL_PARSE))
+        /* Running out of memory is not a property of the certificate:
+           it must fail the call also when unparseable certificates in
+           a bundle are tolerated. */
+        if (err < 0 && (err == PS_MEM_FAIL
+                        || !(flags & CERT_ALLOW_BUNDLE_PARTIAL_PARSE)))
         {
             psX509FreeCert(current);
             psFreeList(certDatas, pool);
@@ -1082,15 +1086,22 @@ static int parse_single_cert(psPool_t *pool, const unsigned char **pp,
     /* As the next three values are optional, we can do a specific test here */
     if (*p != (ASN_SEQUENCE | ASN_CONSTRUCTED))
     {
-        if (getImplicitBitString(pool, &p, (uint32) (end - p),
+        if ((rc = getImplicitBitString(pool, &p, (uint32) (end - p),
                         IMPLICIT_ISSUER_ID, &cert->uniqueIssuerId,
-                        &cert->uniqueIssuerIdLen) < 0 ||
-                getImplicitBitString(pool, &p, (uint32) (end - p),
+                        &cert->uniqueIssuerIdLen)) < 0 ||
+                (rc = getImplicitBitString(pool, &p, (uint32) (end - p),
                         IMPLICIT_SUBJECT_ID, &cert->uniqueSubjectId,
-                        &cert->uniqueSubjectIdLen) < 0 ||
-                getExplicitExtensions(pool, &p, (uint32) (end - p),
-                        EXPLICIT_EXTENSION, &cert->extensions, 0) < 0)
+                        &cert->uniqueSubjectIdLen)) < 0 ||
+                (rc = getExplicitExtensions(pool, &p, (uint32) (end - p),
+                        EXPLICIT_EXTENSION, &cert->extensions, 0)) < 0)
         {
+            if (rc == PS_MEM_FAIL)
+            {
+                /* Not a defect of the certificate. */
+                cert->parseStatus = PS_X509_PARSE_FAIL;
+                func_rc = PS_MEM_FAIL;
+                goto out;
+            }
             psTraceCrypto("There was an error parsing a certificate\n"
                     "extension.  This is likely caused by an\n"
                     "extension format that is not currently\n"
@@ -1488,7 +1499,8 @@ int32 psX509ParseCert(psPool_t *pool, const unsigned char *pp, uint32 size,
         else
         {
             psAssert(cert->parseStatus != PS_X509_PARSE_SUCCESS);
-            if (!(flags & CERT_ALLOW_BUNDLE_PARTIAL_PARSE))
+            if (rc == PS_MEM_FAIL
+                    || !(flags & CERT_ALLOW_BUNDLE_PARTIAL_PARSE))
             {
                 return rc;
             }
